@@ -168,12 +168,16 @@ AMP = 2.0       # a constant of the system, passed by keyword on every request; 
 
 
 def user_rhs(t, y, amp=1.0, **kw):
-    # time dependent, non-symmetric Jacobian:  f = amp ((1 + t) M y + sin(t) y^2)
-    return amp * ((1 + t) * (M_T @ y) + np.sin(t) * y * y + np.cos(2 * np.pi * 1e8 * t) * y)
+    # time dependent, non-symmetric Jacobian:  f = amp ((1 + t) M y + sin(t) y^2)     (the state may be a (3,) vector or a (3, 1) column)
+    shp = np.shape(y)
+    y = np.reshape(y, (-1,))
+    return np.reshape(amp * ((1 + t) * (M_T @ y) + np.sin(t) * y * y + np.cos(2 * np.pi * 1e8 * t) * y), shp)
 
 
 def analytic_jac(t, y, amp=AMP):
-    return amp * ((1 + t) * M_T + np.diag(2 * np.sin(t) * y) + np.cos(2 * np.pi * 1e8 * t) * np.eye(3))
+    shp = np.shape(y)
+    y = np.reshape(y, (-1,))
+    return np.reshape(amp * ((1 + t) * M_T + np.diag(2 * np.sin(t) * y) + np.cos(2 * np.pi * 1e8 * t) * np.eye(3)), shp + shp)
 
 
 def J1(t, y, amp=1.0, **kw):
@@ -200,7 +204,7 @@ def J3(t, y, amp=1.0, **kw):
 
 # (a fourth entry of a jac request is ANOTHER value of the system's constant for that request: a parameter scan of the Jacobian at a fixed time and state)
 OPS = [("jac", "A", "A"), ("jac", "B", "A"), ("jac", "A", "B"), ("jac", "B", "B"), ("jac", "C", "A"), ("jac", "C", "B"), ("hook", 1), ("hook", 2), ("unhook",), ("assign", 1), ("call",),
-       ("setattr",), ("delattr",), ("jac", "B", "A", 3.0), ("jac", "A", "A", 3.0)]
+       ("setattr",), ("delattr",), ("jac", "B", "A", 3.0), ("jac", "A", "A", 3.0), ("setorder", 3)]
 
 
 def build_rhs(cfg):
@@ -240,6 +244,8 @@ def step16(cfg, hist):
             if op[0] == "jac":
                 t = T_A if op[1] == "A" else (T_B if op[1] == "B" else T_C)
                 y = Y_A if op[2] == "A" else Y_B
+                if cfg.get("column"):
+                    y = y.reshape(3, 1)               # a matrix-shaped state: the layout of the answer is (*shape, *shape)
                 requests += 1
                 amp = op[3] if len(op) > 3 else AMP
                 got = np.asarray(rhs.jac(t, y, amp=amp))
@@ -274,6 +280,8 @@ def step16(cfg, hist):
                 if hasattr(rhs.rhs, "jac"):
                     del rhs.rhs.jac
                 attr_present = False
+            elif op[0] == "setorder":
+                rhs.set_jac_base_order(op[1])       # another order of the finite differences: what is attached, and for which time, stays as it was
             elif op[0] == "call":
                 got = np.asarray(rhs(T_B, Y_B, amp=AMP))
                 if last and not np.array_equal(got, user_rhs(T_B, Y_B, amp=AMP)):
@@ -306,7 +314,7 @@ def run(ctx):
     depth = 4 if ctx.quick else 5
     ctx.rule = ("(a) full product 8 functions (non-square linear, matrix-shaped linear, scalar, smooth vector, steep, smooth matrix-valued, two second-order systems in first-order form along a 25-point lattice) x evaluation points with components in "
                 "{1e-8, 0.3, 5, 1e4} x base_order {2,3,5,7} x flat on/off x tolerance; (b) E1 breadth-first search to depth %d over {jac(t_a|t_b, y_a|y_b), hook(J1), hook(J2), unhook, "
-                "rhs.jac = J1, plain call, set / delete a jac attribute on the user's function} on a DiffRHS (with and without a jac attribute on the user's function), reference model = one variable 'attached'; "
+                "rhs.jac = J1, plain call, set / delete a jac attribute on the user's function, set_jac_base_order} on a DiffRHS (with and without a jac attribute on the user's function), reference model = one variable 'attached'; "
                 "distinct = distinct (section, function/op history) classes" % depth)
     ctx.assumptions += ["linear maps: round-off of differencing only, 1e5*eps*|A||x|; smooth: 100*(rtol|J| + atol) plus the round-off floor 1e5*eps*|f||x| of differencing",
                         "without a user Jacobian the DiffRHS answer must be within 1e-6 relative of the analytic Jacobian at the requested (t, y)"]
@@ -318,7 +326,7 @@ def run(ctx):
     if not ctx.only or "rhs" in ctx.only:
         def ops_fn(cfg, hist):
             return OPS
-        explore.bfs(ctx, [dict(attr=False), dict(attr=True)], ops_fn, step16, depth, section="rhs", horizon=300)
+        explore.bfs(ctx, [dict(attr=False), dict(attr=True), dict(attr=False, column=True)], ops_fn, step16, depth, section="rhs", horizon=300)
 
 
 def replay(case):
